@@ -64,7 +64,7 @@ const Marker = "dvh-child"
 
 // Req is one line on the child's stdin.
 type Req struct {
-	Op   string `json:"op"`             // "http" | "writes" | "quit" | "sleep" | "delrepo" | "deldata" | "iid" | "mutid" | "rawcount" | "plan"
+	Op   string `json:"op"`             // "http" | "writes" | "quit" | "sleep" | "delrepo" | "deldata" | "iid" | "mutid" | "rawcount" | "plan" | "rename"
 	Name string `json:"name,omitempty"` // data instance name (deldata, iid, mutid); U then holds a uuid
 	M    string `json:"m,omitempty"`    // method
 	U    string `json:"u,omitempty"`    // url
@@ -193,6 +193,8 @@ func Main(args []string) {
 					say(errResp(datastore.DeleteRepo(dvid.UUID(rq.U), "")))
 				case "deldata": // RPC "repo <uuid> delete <name>"
 					say(errResp(datastore.DeleteDataByName(dvid.UUID(rq.U), dvid.InstanceName(rq.Name), "")))
+				case "rename": // RPC "repo <uuid> rename <old> <new>": U uuid, Name old, M new
+					say(errResp(datastore.RenameData(dvid.UUID(rq.U), dvid.InstanceName(rq.Name), dvid.InstanceName(rq.M), "")))
 				case "iid":
 					d, err := datastore.GetDataByUUIDName(dvid.UUID(rq.U), dvid.InstanceName(rq.Name))
 					if err != nil {
